@@ -29,19 +29,6 @@ TOP_CLASSES = ["DailySettings", "DailyLegacySettings", "BillingSettings",
                "BaseHourlySettings", "HourlySolarSettings", "HourlyNonSolarSettings"]
 LOCKED_FAMILIES = ["DailySettings", "DailyLegacySettings", "BillingSettings"]
 
-AFTER_VALIDATORS = {
-    "_check_developer_mode": "VDevMode",
-    "_check_alpha_final": "VAlphaFinal",
-    "_check_final_bounds_scalar": "VFinalBounds",
-    "_check_initial_step_percentage": "VInitStep",
-    "_check_reduce_splits_num_std": "VReduceStd",
-    "set_numeric_dict": "VOptions",
-    "_check_temperature_bins": "VTempBins",
-    "_check_edge_bins": "VEdgeBins",
-    "_check_wavelet": "VWavelet",
-    "_check_adaptive_weights": "VAdaptive",
-    "_check_seed": "VSeed",
-}
 # the fields each validator reads in Model/Settings.v (a renamed field must not silently turn into a crash value)
 VALIDATOR_READS = {
     "VDevMode": ["developer_mode"],
@@ -56,6 +43,38 @@ VALIDATOR_READS = {
     "VAdaptive": ["adaptive_weights", "adaptive_weight_max_iter", "adaptive_weight_tol"],
     "VSeed": [],
 }
+# a validator is recognised by the set of settings fields its source reads through `self.<field>` (so that renaming
+# a validator changes nothing, while a validator that starts reading another field is not silently taken for the old one)
+VALIDATOR_SIGNATURE = {
+    frozenset(["developer_mode", "silent_developer_mode"]): "VDevMode",
+    frozenset(["alpha_final", "alpha_final_type", "alpha_minimum"]): "VAlphaFinal",
+    frozenset(["final_bounds_scalar", "alpha_final_type"]): "VFinalBounds",
+    frozenset(["initial_step_percentage", "algorithm_choice"]): "VInitStep",
+    frozenset(["reduce_splits_num_std"]): "VReduceStd",
+    frozenset(["options"]): "VOptions",
+    frozenset(["method", "n_bins", "bin_width"]): "VTempBins",
+    frozenset(["method", "include_edge_bins", "edge_bin_rate", "edge_bin_percent"]): "VEdgeBins",
+    frozenset(["wavelet_name", "wavelet_mode"]): "VWavelet",
+    frozenset(["adaptive_weights", "adaptive_weight_max_iter", "adaptive_weight_tol"]): "VAdaptive",
+    frozenset(["seed", "elasticnet", "temporal_cluster"]): "VSeed",
+}
+
+
+def validator_reads(cls, vname):
+    import ast
+    import inspect
+    import textwrap
+    fn = getattr(cls, vname)
+    fn = getattr(fn, "__func__", fn)
+    tree = ast.parse(textwrap.dedent(inspect.getsource(fn)))
+    args = [a.arg for a in next(n for n in ast.walk(tree) if isinstance(n, ast.FunctionDef)).args.args]
+    _need(args, "%s.%s takes no self" % (cls.__name__, vname))
+    me = args[0]
+    return frozenset(n.attr for n in ast.walk(tree)
+                     if isinstance(n, ast.Attribute) and isinstance(n.value, ast.Name) and n.value.id == me
+                     and n.attr in cls.model_fields)
+
+
 EXPECTED_CONFIG = {"frozen": True, "arbitrary_types_allowed": True, "str_to_lower": True, "str_strip_whitespace": True}
 
 
@@ -285,11 +304,11 @@ def class_info(cls, BaseSettings, seen):
           and not dec.computed_fields and not dec.validators, "%s has decorators the translator does not know" % name)
     # field validators
     req = {}
-    for vname, d in dec.field_validators.items():
-        if vname == "lowercase_values":
-            _need(tuple(d.info.fields) == ("*",) and d.info.mode == "before", "lowercase_values changed its scope")
-        elif vname == "_add_required_features":
-            _need(tuple(d.info.fields) == ("train_features",) and d.info.mode == "after", "_add_required_features changed")
+    star = 0
+    for vname, d in dec.field_validators.items():      # recognised by scope and mode, not by name
+        if tuple(d.info.fields) == ("*",) and d.info.mode == "before":
+            star += 1
+        elif tuple(d.info.fields) == ("train_features",) and d.info.mode == "after":
             fn = getattr(cls, vname)
             full = fn([])
             r = list(reversed(full))
@@ -298,16 +317,18 @@ def class_info(cls, BaseSettings, seen):
             req["train_features"] = r
         else:
             raise TranslateError("%s: unknown field validator %s" % (name, vname))
-    _need("lowercase_values" in dec.field_validators, "%s: lowercase_values is gone" % name)
+    _need(star == 1, "%s: %d field validators on '*' (mode before), the model has exactly one (lowercase_values)" % (name, star))
     # model validators
     befores = [n for n, d in dec.model_validators.items() if d.info.mode == "before"]
-    _need(befores == ["__lowercase_property_keys__"], "%s: before-validators are %r" % (name, befores))
+    _need(len(befores) == 1, "%s: before-validators are %r, the model has exactly one (key normalisation)" % (name, befores))
     for vname, d in dec.model_validators.items():
         if d.info.mode == "before":
             continue
         _need(d.info.mode == "after", "%s.%s has mode %s" % (name, vname, d.info.mode))
-        _need(vname in AFTER_VALIDATORS, "%s: unknown model validator %s" % (name, vname))
-        info["validators"].append({"vid": AFTER_VALIDATORS[vname], "py": vname})
+        reads = validator_reads(cls, vname)
+        _need(reads in VALIDATOR_SIGNATURE, "%s: model validator %s reads %r, which matches no validator of Model/Settings.v"
+              % (name, vname, sorted(reads)))
+        info["validators"].append({"vid": VALIDATOR_SIGNATURE[reads], "py": vname})
     # fields
     for fname in sorted(cls.model_fields):
         f = cls.model_fields[fname]
